@@ -407,6 +407,7 @@ class BehavioralRTLIRTypeCheckVisitorL1( bir.BehavioralRTLIRNodeVisitor ):
 
     elif isinstance( node.value.Type, rt.Signal ):
       dtype = node.value.Type.get_dtype()
+      s._check_selectable( node )
       s._handle_index_extension( node, node.value, node.idx, 'index' )
 
       if node.value.Type.is_packed_indexable():
@@ -430,7 +431,16 @@ class BehavioralRTLIRTypeCheckVisitorL1( bir.BehavioralRTLIRNodeVisitor ):
       raise PyMTLTypeError( s.blk, node.ast,
         f'cannot perform index on {node.value.Type}!')
 
+  def _check_selectable( s, node ):
+    # BitsN( e )[i], trunc( e, n )[i:j]: a cast or a parenthesised expression
+    # has no bit/part select in SystemVerilog
+    if isinstance( node.value, ( bir.SizeCast, bir.Truncate, bir.IfExp, bir.BinOp,
+                                 bir.UnaryOp, bir.Compare, bir.Reduce ) ):
+      raise PyMTLTypeError( s.blk, node.ast,
+        'cannot select bits of a computed value: assign it to a temporary variable first!' )
+
   def visit_Slice( s, node ):
+    s._check_selectable( node )
     lower_val = None if not hasattr(node.lower, "_value") else node.lower._value
     upper_val = None if not hasattr(node.upper, "_value") else node.upper._value
     dtype = node.value.Type.get_dtype()
